@@ -4,7 +4,7 @@
    on every generated graph by Run/RunDijkstra.v, together with [nonneg_b]:
    when both hold the theorems of Properties/C04.v apply to that graph. *)
 From Coq Require Import List Bool ZArith Arith.
-From GV Require Import Model.GState Model.Query Model.Dijkstra Spec.ShortestPathDef Spec.ShortestPathCheck.
+From GV Require Import Base.AMap Model.GState Model.Query Model.Dijkstra Spec.ShortestPathDef Spec.ShortestPathCheck.
 Import ListNotations.
 
 Definition wf_adj_b {T A : Type} (g : gstate T A) : bool :=
@@ -15,3 +15,19 @@ Definition wf_adj_b {T A : Type} (g : gstate T A) : bool :=
 
 Definition search_hypotheses_b {T A : Type} (g : gstate T A) (weighted : bool) : bool :=
   wf_adj_b g && nonneg_b (wgraph_of weighted (successors_vec g)).
+
+(* executable form of the coherence of the name indexes ([names_wf] in
+   Proofs/DijkstraNamesOk.v): nodes_map and nodes_map_rev are inverse on 0..n-1 *)
+Definition node_name_at {T A : Type} (g : gstate T A) (i : nat) : option T :=
+  match get_node_by_index g i with Some nd => Some (nname nd) | None => None end.
+
+Definition names_wf_b {T A : Type} (teqb : T -> T -> bool) (g : gstate T A) : bool :=
+  let n := number_of_nodes g in
+  forallb (fun xi : T * nat =>
+             Nat.ltb (snd xi) n &&
+             match node_name_at g (snd xi) with Some y => teqb y (fst xi) | None => false end)
+          (nodes_map g) &&
+  forallb (fun i => match node_name_at g i with
+                    | Some x => match AMap.lookup teqb x (nodes_map g) with Some j => Nat.eqb j i | None => false end
+                    | None => false
+                    end) (seq 0 n).
